@@ -178,7 +178,9 @@ def schemas(draw, cfg=None):
             t = {"name": name, "kind": "defined", "of": T(draw(st.sampled_from(SIMPLE)))}
             simple_defs.append(name)
         elif c < 35 and simple_defs:
-            t = {"name": name, "kind": "defined", "of": named(draw(st.sampled_from(simple_defs)))}
+            # prefer the most recent defined type half of the time: chains of renames of depth >= 3
+            base_t = simple_defs[-1] if draw(st.booleans()) else draw(st.sampled_from(simple_defs))
+            t = {"name": name, "kind": "defined", "of": named(base_t)}
             simple_defs.append(name)
         elif c < 55:
             k = draw(st.integers(1, 5))
